@@ -311,7 +311,7 @@ mod exhaust {
         let mut k = konst::iter::into_iter!(a..=b);
         let mut s = a..=b;
         loop {
-            match (k.next(), s.next()) {
+            match (k.copy().next(), s.next()) {
                 (None, None) => break,
                 (Some((x, rest)), Some(y)) => {
                     assert!(x == y);
